@@ -1033,6 +1033,9 @@ class ObjectDomain(LazyGenerators, EffectDomain):
         if f is None:
             return None
         decos = self._decorators(f)
+        got = self._call_decorated_method(interp, f, inst, pos, kw, st, fr)
+        if got is not None:
+            return got
         if "staticmethod" in decos:
             argvals = self._bind(f, pos, kw, False)
             return [exc(("exc", "TypeError"), st)] if argvals is None else interp.inline(f, argvals, st, fr, receiver=inst[2], is_method=False)
@@ -1086,6 +1089,13 @@ class ObjectDomain(LazyGenerators, EffectDomain):
                     return None
                 out.append(("func", target))
                 continue
+            if isinstance(dexpr, ast.Call) and isinstance(dexpr.func, ast.Name):
+                mod = getattr(func, "_module", None)
+                target = self._lookup_function(dexpr.func.id, fr) or (self.classes.lookup_function(mod, dexpr.func.id) if mod is not None and hasattr(self.classes, "lookup_function") else None)
+                if target is None or target is func:
+                    return None
+                out.append(("<decorator expression>", dexpr))   # @factory(args): what the factory returns is the decorator
+                continue
             return None
         return out
 
@@ -1099,9 +1109,9 @@ class ObjectDomain(LazyGenerators, EffectDomain):
         frame.caller = caller
         return frame
 
-    def decorated_call(self, interp, func, argvals, st, caller, receiver, is_method, self_value):
-        """A call of a function whose decorators are functions of the repository: the decorators run (on the function
-        as written), and what they return is called with the arguments.  None: take the function as written."""
+    def _decorated_values(self, interp, func, st, caller):
+        """What the decorators of ``func`` (functions of the repository) make of it -> results, or None when it has none
+        such / they hand back something this model cannot call."""
         frame = self._module_frame(func, caller)
         decos = self._decorator_values(interp, func, st, frame)
         if not decos:
@@ -1112,10 +1122,39 @@ class ObjectDomain(LazyGenerators, EffectDomain):
             for r in cur:
                 if r.kind == "exc":
                     return None
-                nxt.extend(self.apply(interp, dv, [r.value], [], r.state, frame))
+                if dv[0] == "<decorator expression>":
+                    for d_r in interp.eval(dv[1], r.state, frame):
+                        if d_r.kind == "exc":
+                            return None
+                        nxt.extend(self.apply(interp, d_r.value, [r.value], [], d_r.state, frame))
+                else:
+                    nxt.extend(self.apply(interp, dv, [r.value], [], r.state, frame))
             cur = nxt
         if not cur or any(r.kind != "val" or not (isinstance(r.value, tuple) and r.value[:1] and r.value[0] in CALLABLE_TAGS) for r in cur):
-            return None   # the decorators hand back something this model cannot call (an external wrapper, ...)
+            return None
+        return cur
+
+    def _call_decorated_method(self, interp, f, obj, pos, kw, st, fr):
+        """obj.m(*pos, **kw) where m's decorators are functions of the repository: what they made is looked up on the
+        object -- a plain function is bound to it, a staticmethod object is not -- and called.  None: no such decorators."""
+        if not getattr(f, "decorator_list", None) or self._decorators(f) & {"staticmethod", "classmethod", "property", "cached_property"}:
+            return None
+        made = self._decorated_values(interp, f, st, fr)
+        if made is None:
+            return None
+        out = []
+        for r in made:
+            bound = [obj] if isinstance(r.value, tuple) and r.value[:1] == ("func",) else []
+            out.extend(self.apply(interp, r.value, bound + list(pos), list(kw), r.state, fr))
+        return out
+
+    def decorated_call(self, interp, func, argvals, st, caller, receiver, is_method, self_value):
+        """A call of a function whose decorators are functions of the repository: the decorators run (on the function
+        as written), and what they return is called with the arguments.  None: take the function as written."""
+        frame = self._module_frame(func, caller)
+        cur = self._decorated_values(interp, func, st, caller)
+        if cur is None:
+            return None   # no such decorators, or they hand back something this model cannot call (an external wrapper, ...)
         a = func.args
         is_meth = is_method and getattr(func, "_class", None) is not None and bool(a.args) and "staticmethod" not in self._decorators(func)
         params = [p.arg for p in a.posonlyargs + a.args][1 if is_meth else 0:]
@@ -1533,6 +1572,9 @@ class ObjectDomain(LazyGenerators, EffectDomain):
         f = self._method(root, name)
         if f is None:
             return [val(TOP, st)]
+        got = self._call_decorated_method(interp, f, ("self",), pos, kw, st, fr)
+        if got is not None:
+            return got
         static = "staticmethod" in self._decorators(f)
         argvals = self._bind(f, pos, kw, not static)
         if argvals is None:
